@@ -16,7 +16,7 @@ from mc.core import Res
 from refs import iso_ref
 
 ALPHA = '019-:.,+TWZ_ a'
-SHORT_ALPHA = '0129-:+.,WZ '
+SHORT_ALPHA = '01234569-:+.,WZ '
 _CFG = {'edits': 1}
 
 
@@ -181,6 +181,69 @@ def eval_short(case):
     return Res(trans=n, viols=viols)
 
 
+def boundary_strings():
+    """every field at and just outside its range, in every date system / time form / offset form"""
+    out = set()
+    years = ['0000', '0001', '1900', '2000', '2004', '2014', '2015', '2100', '9999']
+    for y in years:
+        for m in ('00', '01', '02', '12', '13'):
+            for d in ('00', '01', '28', '29', '30', '31', '32'):
+                out.add('%s-%s-%s' % (y, m, d))
+                out.add('%s%s%s' % (y, m, d))
+        for w in ('00', '01', '52', '53', '54'):
+            for d in ('', '0', '1', '7', '8'):
+                out.add('%s-W%s%s' % (y, w, ('-' + d) if d else ''))
+                out.add('%sW%s%s' % (y, w, d))
+        for n in ('000', '001', '059', '060', '365', '366', '367'):
+            out.add('%s-%s' % (y, n))
+            out.add('%s%s' % (y, n))
+        for m in ('00', '01', '12', '13'):
+            out.add('%s-%s' % (y, m))
+    times = []
+    for h in ('00', '23', '24', '25'):
+        for mi in ('00', '59', '60'):
+            times.append('%s:%s' % (h, mi))
+            times.append('%s%s' % (h, mi))
+            for se in ('00', '59', '60'):
+                times.append('%s:%s:%s' % (h, mi, se))
+                times.append('%s%s%s' % (h, mi, se))
+                times.append('%s:%s:%s.000' % (h, mi, se))
+                times.append('%s:%s:%s,001' % (h, mi, se))
+        times.append(h)
+    offs = ['', 'Z', '+00', '-00:00', '+23', '+24', '-24', '+23:59', '-23:59', '+24:00', '-24:00', '+2400', '+24:01', '+00:60', '+0060',
+            '-2360', '+25:00', '+99:99']
+    for d in ('2014-02-14', '9999-12-31', '0001-01-01', '20140214', '2014-W07-5', '2014045'):
+        for t in times:
+            out.add(d + 'T' + t)
+        for o in offs:
+            out.add(d + 'T10:30' + o)
+            out.add(d + 'T24:00' + o)
+            out.add(d + 'T1030' + o)
+    return sorted(out), sorted(set(times)), [o for o in offs if o]
+
+
+def eval_boundaries(case):
+    warnings.simplefilter('ignore')
+    dts, times, offs = boundary_strings()
+    viols = []
+    kinds = set()
+    n = 0
+    batch = {'datetime': dts, 'date': [s for s in dts if 'T' not in s], 'time': times + [t + o for t in ('10:30', '2400', '10') for o in offs],
+             'tz': offs}[case]
+    for s in batch:
+        n += 1
+        r = judge(s, case)
+        if r is None and case == 'datetime':
+            r = judge(s, case, 'T')
+        if r is not None:
+            key = (r['kind'], classify(s))
+            if key not in kinds and len(viols) < 6:
+                kinds.add(key)
+                r['class'] = 'field-boundary'
+                viols.append(r)
+    return Res(trans=n, viols=viols, sample={'entry': case, 'strings': n, 'examples': batch[:3]})
+
+
 def eval_misc(case):
     from dateutil.parser import isoparser, isoparse
     kind = case[0]
@@ -234,6 +297,8 @@ def replay(part, case):
     if part.startswith('edit'):
         _CFG['edits'] = 2 if part.endswith('2') else 1
         return eval_neighbourhood(case).viols
+    if part == 'field-boundaries':
+        return eval_boundaries(case).viols
     if part == 'short-strings':
         return eval_short(tuple(case)).viols
     return eval_misc(tuple(case)).viols
@@ -256,6 +321,7 @@ def run(ctx):
             short.append((entry, a, 1))
         short.append((entry, '', 0))
     ctx.explore('short-strings', short, 'eval_short', chunk=4)
+    ctx.explore('field-boundaries', ['datetime', 'date', 'time', 'tz'], 'eval_boundaries', chunk=1)
     ctx.explore('misc', [('non-ascii',), ('sep-mismatch',), ('non-text',)], 'eval_misc', serial=True)
     ctx.coverage_extra.update({
         'bounds': {'valid_strings': len(vs), 'edit_distance': 2 if ctx.thorough else 1, 'alphabet': ALPHA,
